@@ -63,7 +63,7 @@ theorem C10_out_refused (c : Conn) (sid : Int) (hs : List Header) (es : Bool) (h
     when the streams the peer has open already reach the acknowledged local MAX_CONCURRENT_STREAMS; otherwise the
     frame goes on to the normal HEADERS processing (`receiveHeadersRest`), i.e. is not refused for this reason -/
 theorem C10_in_limit (c : Conn) (sid : Int) (block : Bytes) (es : Bool) (prio : Option Prio)
-    (hnew : hasStream c sid = false) :
+    (hnew : hasStream c sid = false) (hin : streamIdIsOutbound c sid = false) (hhi : sid > c.highestIn) :
     let r : Int := if c.cfg.client then 0 else 1
     let n : Int := (c.streams.filter (counted r)).length
     (n + 1 > c.localSettings.maxConcurrentStreams →
@@ -77,7 +77,7 @@ theorem C10_in_limit (c : Conn) (sid : Int) (block : Bytes) (es : Bool) (prio : 
   · intro hfull
     unfold receiveHeadersFrame openInboundStreams
     wps
-    simp only [hnew, Bool.not_false, if_true]
+    simp only [hnew, hin, hhi, Bool.not_false, Bool.and_self, decide_true, if_true]
     refine wp_mono (C10_count r c) ?_ ?_
     · intro m c' h
       rw [h.1]
@@ -104,12 +104,27 @@ theorem C10_in_limit (c : Conn) (sid : Int) (block : Bytes) (es : Bool) (prio : 
       | ok m =>
         refine ⟨c1, hc.2.2.1, hc.2.1, ?_⟩
         unfold receiveHeadersFrame openInboundStreams
-        simp only [bind, M.bind, getS, hnew, Bool.not_false, if_true]
+        simp only [bind, M.bind, getS, hnew, hin, hhi, Bool.not_false, Bool.and_self, decide_true, if_true]
         have hr : (if c.cfg.client = true then (0 : Int) else 1) = r := rfl
         rw [hr, ho]
         simp only
         have hm : ¬ (m + 1 > c.localSettings.maxConcurrentStreams) := by rw [hc.1]; simp only [n] at hroom; omega
         simp only [hm, if_false, pure, M.pure]
+
+/-- **a HEADERS frame that does not open a stream is not counted**: for an id of this endpoint's own parity, or one at
+    or below the highest id the peer has used (a stream that was closed and forgotten — say a response racing our
+    RST_STREAM), the limit plays no part, however many streams are open (before the repair D48 such a frame raised
+    TooManyStreamsError, a connection error, once the limit was reached) -/
+theorem C10_closed_stream_not_counted (c : Conn) (sid : Int) (block : Bytes) (es : Bool) (prio : Option Prio)
+    (hold : streamIdIsOutbound c sid = true ∨ sid ≤ c.highestIn) :
+    receiveHeadersFrame sid block es prio c = receiveHeadersRest sid block es prio c := by
+  unfold receiveHeadersFrame
+  have hcond : (!hasStream c sid && !streamIdIsOutbound c sid && decide (sid > c.highestIn)) = false := by
+    rcases hold with h | h
+    · simp [h]
+    · have : ¬ (sid > c.highestIn) := by omega
+      simp [this]
+  simp only [bind, M.bind, getS, hcond, Bool.false_eq_true, if_false, pure, M.pure]
 
 /-- the limit is not enforced everywhere the RFC counts: a reserved (pushed) stream becomes half-closed — and is
     counted from then on — without any check (known finding D22).  Witness: RESERVED_LOCAL + SEND_HEADERS is a plain
